@@ -31,7 +31,20 @@ impl BitWriter {
     /// uvlc(): leadingZeros zeros, a one, then leadingZeros bits of (value + 1 - 2^lz)
     pub fn uvlc(&mut self, value: u32) {
         let v = value as u64 + 1;
-        let lz = 63 - v.leading_zeros(); // floor(log2(v))
+        let mut lz = 63 - v.leading_zeros(); // floor(log2(v))
+        if value == u32::MAX {
+            // the reserved value (only ever written by `reserved_uvlc_seq_unit`): 32 or more
+            // leading zeros, a one, and as many suffix bits
+            lz += UVLC_EXTRA.with(|c| c.get());
+            for _ in 0..lz {
+                self.bit(false);
+            }
+            self.bit(true);
+            for _ in 0..lz {
+                self.bit(false);
+            }
+            return;
+        }
         for _ in 0..lz {
             self.bit(false);
         }
@@ -533,6 +546,36 @@ pub fn leb128(mut v: u64) -> Vec<u8> {
         }
         out.push(b | 0x80);
     }
+    out
+}
+
+thread_local! {
+    /// extra leading zeros for the reserved uvlc value (see BitWriter::uvlc)
+    static UVLC_EXTRA: std::cell::Cell<u32> = const { std::cell::Cell::new(0) };
+}
+
+/// A temporal unit whose sequence header carries the reserved / over-long uvlc encodings of
+/// num_ticks_per_picture_minus_1 (32, 33, 34 or 40 leading zeros), whole or cut short. Not a
+/// conformant header: for the absence-of-panics checks only.
+pub fn reserved_uvlc_seq_unit(r: &mut Rng) -> Vec<u8> {
+    let mut h = loop {
+        let h = gen_seq_hdr(r);
+        if !h.reduced {
+            break h;
+        }
+    };
+    h.timing = Some(Timing { num_units_in_display_tick: r.range(1, 1000) as u32, time_scale: r.range(1, 90_000) as u32, equal_picture_interval: Some(u32::MAX) });
+    UVLC_EXTRA.with(|c| c.set(*r.pick(&[0u32, 0, 0, 1, 2, 8])));
+    let full = h.write();
+    UVLC_EXTRA.with(|c| c.set(0));
+    let k = if r.chance(2, 3) { full.len() } else { r.usize_below(full.len().max(1)) };
+    let mut out = Vec::new();
+    if r.chance(1, 2) {
+        out.extend_from_slice(&obu(2, &[], true, None));
+    }
+    out.extend_from_slice(&obu(1, &full[..k], true, None));
+    let n = r.range(1, 12) as usize;
+    out.extend_from_slice(&obu(6, &r.bytes(n), true, None));
     out
 }
 
